@@ -88,12 +88,22 @@ class LockShim:
 
     def hold(self, db, k):
         self.holder = sqlite3.connect(db, timeout=0, isolation_level=None)
-        self.holder.execute("BEGIN EXCLUSIVE")
+        self.blocked = None
+        try:
+            self.holder.execute("BEGIN EXCLUSIVE")
+        except sqlite3.OperationalError as e:
+            # the store itself still holds the file although its last synchronisation has returned (nothing committed)
+            self.blocked = str(e)
+            self.holder.close()
+            self.holder = None
         self.left = k
 
     def release(self):
         if self.holder is not None:
-            self.holder.execute("ROLLBACK")
+            try:
+                self.holder.execute("ROLLBACK")
+            except sqlite3.OperationalError:
+                pass
             self.holder.close()
             self.holder = None
 
@@ -251,7 +261,9 @@ def _apply_history(history, variant, shim):
                         store.sync_individual(inds[idx])
                 finally:
                     shim.release()
-                if shim.met != k:
+                if getattr(shim, "blocked", None):
+                    out.append(("C10:locked:store-keeps-the-file-locked-after-a-synchronisation-returned", "a second connection cannot lock the file before the next synchronisation: %s" % shim.blocked))
+                elif shim.met != k:
                     out.append(("C10:locked:harness", "the store met %d locked answers, %d were planned" % (shim.met, k)))
                 ref[inds[idx].id] = image(inds[idx])
             elif op == "M":
